@@ -112,6 +112,9 @@ def param_desc(c):
 
 
 # ---------------------------------------------------------------- catalogue for the relation monitors
+RANDOM_SETTINGS = [0, 0]          # [number of random settings appended to the catalogue (thorough tier), seed]
+
+
 def catalogue(T):
     """(label, factory, x grid (1-D, inside the conditioning region), smooth-branch breakpoints)"""
     out = []
@@ -210,6 +213,52 @@ def catalogue(T):
         for xmax in (1.0, 10.0):
             out.append(("Manly(lam=%g,xmax=%g)" % (lam, xmax), mk("Manly", {"lam": lam}, {"xmax": xmax}),
                         xmax * np.concatenate([-geo(1e-2, 1.0, 8)[::-1], geo(1e-2, 1.0, 8)]), []))
+    # thorough tier: seeded random parameter / constant vectors inside the declared bounds (same grids and conditioning regions)
+    rng = np.random.default_rng(RANDOM_SETTINGS[1] + 101)
+    U = lambda a, b: float(rng.uniform(a, b))
+    LU = lambda a, b: float(math.exp(rng.uniform(math.log(a), math.log(b))))
+    sym = lambda g: np.concatenate([-g[::-1], g])
+    for _ in range(RANDOM_SETTINGS[0]):
+        cls = ["Logit", "Log", "BoxCox2", "BoxCox2sym", "BoxCox1lam", "BoxCox1nu", "YeoJohnson", "Reciprocal", "Sinh", "LogSinh", "Manly"][int(rng.integers(0, 11))]
+        if cls == "Logit":
+            lower, ld = U(-1e3, 1e3), U(-5, 5)
+            t0 = T.Logit()
+            t0.lower, t0.logdelta = lower, ld
+            out.append(("Logit(lower=%r,logdelta=%r)" % (lower, ld), mk("Logit", {"lower": lower, "logdelta": ld}),
+                        lower + (float(t0.upper - lower) if hasattr(t0, "upper") else math.exp(ld)) * lin(0.05, 0.95, 19), []))
+        elif cls == "Log":
+            nu = LU(1e-6, 5)
+            out.append(("Log(nu=%r)" % nu, mk("Log", {"nu": nu}), geo(0.1, 1e4, 24), []))
+        elif cls in ("BoxCox2", "BoxCox2sym"):
+            nu, lam = LU(1e-6, 3), U(0, 3)
+            xs = geo(0.1, 100.0 if lam <= 1.0 else 20.0, 20)
+            out.append(("%s(nu=%r,lam=%r)" % (cls, nu, lam), mk(cls, {"nu": nu, "lam": lam}), sym(xs) if cls == "BoxCox2sym" else xs,
+                        [0.0] if cls == "BoxCox2sym" else []))
+        elif cls == "BoxCox1lam":
+            lam, nu = U(0, 2.5), LU(0.01, 2)
+            out.append(("BoxCox1lam(lam=%r,nu=%r)" % (lam, nu), mk("BoxCox1lam", {"lam": lam}, {"nu": nu}), geo(0.1, 50, 16), []))
+        elif cls == "BoxCox1nu":
+            lam, nu = U(0, 2.5), LU(0.01, 2)
+            out.append(("BoxCox1nu(nu=%r,lam=%r)" % (nu, lam), mk("BoxCox1nu", {"nu": nu}, {"lam": lam}), geo(0.1, 50, 16), []))
+        elif cls == "YeoJohnson":
+            nu, scale, lam = U(-1, 1), LU(0.05, 3), U(-1, 3)
+            out.append(("YeoJohnson(nu=%r,scale=%r,lam=%r)" % (nu, scale, lam), mk("YeoJohnson", {"nu": nu, "scale": scale, "lam": lam}),
+                        (sym(geo(1e-2, 15, 10)) - nu) / scale, [-nu / scale]))
+        elif cls == "Reciprocal":
+            nu = LU(1e-6, 2)
+            out.append(("Reciprocal(nu=%r)" % nu, mk("Reciprocal", {"nu": nu}), geo(0.1, 100, 20), []))
+        elif cls == "Sinh":
+            nu, scale = U(-2, 2), LU(1e-3, 3)
+            out.append(("Sinh(nu=%r,scale=%r)" % (nu, scale), mk("Sinh", {"nu": nu, "scale": scale}), nu + sym(geo(1e-2, 20, 10)) / max(scale, 0.05), []))
+        elif cls == "LogSinh":
+            loga, logb, xmax = U(-5, 0), U(-1, 1), LU(0.5, 20)
+            out.append(("LogSinh(loga=%r,logb=%r,xmax=%r)" % (loga, logb, xmax), mk("LogSinh", {"loga": loga, "logb": logb}, {"xmax": xmax}),
+                        xmax * geo(0.01, 3.0, 16), []))
+        else:
+            lam, xmax = U(-3, 3), LU(0.5, 20)
+            if abs(lam) < 1e-3:
+                lam = 0.0
+            out.append(("Manly(lam=%r,xmax=%r)" % (lam, xmax), mk("Manly", {"lam": lam}, {"xmax": xmax}), xmax * sym(geo(1e-2, 1.0, 8)), []))
     return out
 
 
